@@ -22,7 +22,7 @@ struct OModel {
 
 struct OSys : vf::SysBase {
   enum K { CREATE, CREATE_FROM, LINK, UNLINK, DELETE, SETROOT, COPY, G_MKDIR, G_MKUNDIR,
-           ASSOCN, DISSN, ASSOCE, DISSE, SETNIDX, ADDNIDX, SETEIDX, ADDEIDX, G_CREATE, G_FROMNODE, G_DELETE };
+           ASSOCN, DISSN, ASSOCE, DISSE, SETNIDX, ADDNIDX, SETEIDX, ADDEIDX, G_CREATE, G_FROMNODE, G_DELETE, G_ONEDGE };
   struct Op { K k; int a, b, c; };
   bool dir0; int flavour, KN, KE, NN, EE, KI;
   std::vector<Op> ops; int depth = 0;
@@ -57,6 +57,7 @@ struct OSys : vf::SysBase {
       ops.push_back({G_CREATE, 0, 0, 0});
       for (int id = 0; id < NN; ++id) ops.push_back({G_FROMNODE, id, 0, 0});
       for (int id = 0; id < NN; ++id) ops.push_back({G_DELETE, id, 0, 0});
+      for (int id = 0; id < EE; ++id) ops.push_back({G_ONEDGE, id, 0, 0});   // a node without object put on an edge, behind the observer's back
     }
     if (flavour == 1 || flavour == 2) {
       for (int i = 0; i < KN; ++i) ops.push_back({DISSN, i, 0, 0});
@@ -90,6 +91,7 @@ struct OSys : vf::SysBase {
       case SETNIDX: return "setNodeIndex(" + nn(p.a) + "," + str(p.b) + ")"; case ADDNIDX: return "addNodeIndex(" + nn(p.a) + ")";
       case SETEIDX: return "setEdgeIndex(" + en(p.a) + "," + str(p.b) + ")"; case ADDEIDX: return "addEdgeIndex(" + en(p.a) + ")";
       case G_CREATE: return "getGraph()->createNode()"; case G_FROMNODE: return "getGraph()->createNodeFromNode(" + str(p.a) + ")";
+      case G_ONEDGE: return "getGraph()->createNodeOnEdge(edge " + str(p.a) + ")";
       default: return "getGraph()->deleteNode(" + str(p.a) + ")";
     }
   }
@@ -145,6 +147,7 @@ struct OSys : vf::SysBase {
       case ADDEIDX: if (m.eIdx.count(p.a)) return "addEdgeIndex[object-has-an-index]"; ex = MUST_OK; return "addEdgeIndex";
       case G_CREATE: ex = MUST_OK; return "graph.createNode";
       case G_FROMNODE: if (!m.g.hasN((U)p.a)) return "graph.createNodeFromNode[absent-node]"; ex = MUST_OK; return "graph.createNodeFromNode";
+      case G_ONEDGE: if (!m.g.hasE((U)p.a)) return "graph.createNodeOnEdge[absent-edge]"; ex = MUST_OK; return "graph.createNodeOnEdge";
       default: if (!m.g.hasN((U)p.a)) return "graph.deleteNode[absent-node]"; ex = MUST_OK; return "graph.deleteNode";
     }
   }
@@ -166,7 +169,7 @@ struct OSys : vf::SysBase {
       return true;
     }
     int dn = 0, de = 0;
-    switch (p.k) { case CREATE: case G_CREATE: dn = 1; break; case CREATE_FROM: case G_FROMNODE: dn = 1; de = 1; break; case LINK: de = 1; break; default: break; }
+    switch (p.k) { case CREATE: case G_CREATE: dn = 1; break; case CREATE_FROM: case G_FROMNODE: dn = 1; de = 1; break; case LINK: de = 1; break; case G_ONEDGE: dn = 1; de = 2; break; default: break; }
     return (int)m.g.nextN + dn <= NN && (int)m.g.nextE + de <= EE;
   }
 
@@ -253,6 +256,7 @@ struct OSys : vf::SysBase {
         case G_CREATE: ret = o->getGraph()->createNode(); break;
         case G_FROMNODE: ret = o->getGraph()->createNodeFromNode((U)p.a); break;
         case G_DELETE: o->getGraph()->deleteNode((U)p.a); break;
+        case G_ONEDGE: ret = o->getGraph()->createNodeOnEdge((U)p.a); break;
         default: break;
       }
     }
@@ -281,6 +285,8 @@ struct OSys : vf::SysBase {
       case G_CREATE: { U n = m.g.newNode(); if (ret != n) retBad = "returned " + str(ret) + ", reference " + str(n); break; }
       case G_FROMNODE: { U n = m.g.newNode(); m.g.newEdge((U)p.a, n); if (ret != n) retBad = "returned " + str(ret) + ", reference " + str(n); break; }
       case G_DELETE: m.removeNode((U)p.a); break;
+      case G_ONEDGE: { auto ends = m.g.edges.at((U)p.a); m.g.edges.erase((U)p.a); m.forgetEdge((U)p.a); U n = m.g.newNode(); m.g.newEdge(ends.first, n); m.g.newEdge(n, ends.second);
+        if (ret != n) retBad = "returned " + str(ret) + ", reference " + str(n); break; }
       default: break;
     }
     if (!audit) return;
@@ -512,6 +518,7 @@ void obsSpaces(vf::Runner& R, bool th, double CT) {
     cfgs.push_back({d != 0, 0, 3, 2, 4, 4, 0, th ? 5 : 4});
     if (th) cfgs.push_back({d != 0, 0, 4, 2, 5, 5, 0, 4});
     cfgs.push_back({d != 0, 1, 2, 2, 3, 3, 0, th ? 7 : 6});
+    cfgs.push_back({d != 0, 1, 3, 1, 4, 4, 0, th ? 5 : 4});   // three node objects and room for an object-less node put on an edge behind the observer's back
     cfgs.push_back({d != 0, 2, 2, 2, 3, 3, 2, th ? 6 : 5});
   }
   for (auto& c : cfgs) {
